@@ -7,6 +7,9 @@ import (
 )
 
 func deepEq(x, y value) bool {
+	if isSymOrSymstr(x) || isSymOrSymstr(y) {
+		return decide(valEqTerm(x, y))
+	}
 	switch x := x.(type) {
 	case iface:
 		y, ok := y.(iface)
@@ -109,7 +112,11 @@ func init() {
 		for i := 1; i < len(sl); i++ {
 			for j := i; j > 0; j-- {
 				r := call(fr.i, fr, 0, less, []value{j, j - 1})
-				if !r.(bool) {
+				if sv, ok := r.(symv); ok {
+					if !decide(sv.t) {
+						break
+					}
+				} else if !r.(bool) {
 					break
 				}
 				sl[j], sl[j-1] = sl[j-1], sl[j]
@@ -117,6 +124,7 @@ func init() {
 		}
 		return nil
 	}
+	externals["sort.Slice"] = externals["sort.SliceStable"] // any order among equals is allowed; the stable one is chosen
 	externals["sort.Strings"] = func(fr *frame, args []value) value {
 		sl := args[0].([]value)
 		less := func(i, j int) bool {
